@@ -142,6 +142,10 @@ def fn_key_as_implemented(name):
     return camel(name)
 
 
+def is_num(x):
+    return isinstance(x, (int, float)) and not isinstance(x, bool)
+
+
 def is_iterable(v):
     return isinstance(v, (tuple, Lazy))
 
@@ -276,7 +280,7 @@ class Interp:
         if isinstance(v, Ctx):
             raise NoMatchingFunctionException('#unary_operator_-')
         v = plain(v)
-        if isinstance(v, int) and not isinstance(v, bool):
+        if is_num(v):
             return -v
         raise NoMatchingFunctionException('#unary_operator_-')
 
@@ -306,8 +310,7 @@ class Interp:
             raise NoMatchingFunctionException(op)
         a, b = plain(a), plain(b)
 
-        def is_int(x):
-            return isinstance(x, int) and not isinstance(x, bool)
+        is_int = is_num          # numbers: integers and floats (never booleans)
         if op == 'eq':
             return a == b
         if op == 'ne':
@@ -651,7 +654,7 @@ class Interp:
                 errors.append(type(e).__name__)
                 keys.append(errors)
         good = [k for k in keys if k is not errors and k is not None]
-        if len(good) > 1 and not (all(isinstance(k, int) and not isinstance(k, bool) for k in good) or
+        if len(good) > 1 and not (all(is_num(k) for k in good) or
                                   all(isinstance(k, str) for k in good)):
             if any(contains_lazy(k) for k in good):
                 raise OOD('lazy sort key')
